@@ -52,6 +52,13 @@ def cases(chk):
     ]
     for h in corpus:
         yield "history", {"events": h}
+    # the id encoding of uploads (prekey ids, signed prekey id, registration id) at every width boundary
+    for k in range(0, 33):
+        for n in sorted(set(x for x in ((1 << k) - 1, 1 << k, (1 << k) + 1, r.randrange(1 << k, 2 << k)) if 0 <= x < (1 << 32))):
+            yield "idenc", {"n": n}
+    # registration ids of every width (1..8 hex digits, and the extremes): the id is part of every upload
+    for i, rid in enumerate([1, 0xf, 0x10, 0xfff, 0x1000, 0xfffff, 0x100000, 0xffffff, 0x1000000, 0x1abcdef, 0xfffffff, 0x10000000, 0x7ffffffe]):
+        yield "history", {"events": corpus[i % 3], "regid": rid}
     # login cycles: (connect, authed, a few server / peer events, connection loss or restart) repeated — mostly-valid histories
     for _ in range(chk.scale(80, 2000)):
         evs = []
@@ -74,13 +81,16 @@ def cases(chk):
 
 
 def nontrivial(stream, case):
-    return tuple(case["events"])
+    if stream == "idenc":
+        return ("idenc", case["n"])
+    return (tuple(case["events"]), case.get("regid"))
 
 
 class World(object):
     """one account: a profile on disk, the current process (stack), and the server's view"""
 
-    def __init__(self, chk):
+    def __init__(self, chk, regid=None):
+        self.regid = regid
         from yowsup.config.v1.config import Config
         from consonance.structs.keypair import KeyPair
         self.chk = chk
@@ -102,7 +112,17 @@ class World(object):
         FakeDispatcher.LOG = []
         self.near, self.top = Probe("near", forward=True), Probe("top")
         self.stack = YowStack((YowNetworkLayer, self.near, AxolotlControlLayer, self.top), reversed=False)
-        self.stack.setProfile(YowProfile(self.name, self.config))
+        from axolotl.util.keyhelper import KeyHelper
+        real_gen = KeyHelper.generateRegistrationId
+        if self.regid is not None:
+            # the account's registration id is drawn once, when the key store is created: force the width under test
+            KeyHelper.generateRegistrationId = staticmethod(lambda extended_range=False: self.regid)
+        try:
+            prof = YowProfile(self.name, self.config)
+            prof.axolotl_manager          # creates the store (and the registration id) now
+            self.stack.setProfile(prof)
+        finally:
+            KeyHelper.generateRegistrationId = real_gen
         self.stack.setProp(YowNetworkLayer.PROP_ENDPOINT, ("e1.whatsapp.net", 443))
         self.control = self.stack.getLayer(2)
         self.inflight = []         # indexes into self.uploads of uploads this process is waiting for
@@ -126,6 +146,21 @@ def _id_of(b):
 
 
 def run_case(chk, stream, case):
+    if stream == "idenc":
+        from yowsup.layers.axolotl import AxolotlControlLayer
+        n = case["n"]
+        chk.hit("idenc:%d-hex-digits" % len("%x" % n))
+        try:
+            got = ",".join(str(b) for b in bytearray(AxolotlControlLayer().adjustId(n)))
+        except Exception as e:
+            return [oracle("C14:id-encoding-raises", "adjustId(%#x) raises %s: %s" % (n, type(e).__name__, e))]
+        model = chk.driver.ask("pk adjust %d" % n)
+        fs = []
+        if got != model:
+            fs.append(corr("idenc", "adjustId(%#x): impl=%s model=%s" % (n, got, model)))
+        if int.from_bytes(bytes(int(x) for x in got.split(",")), "big") != n:
+            fs.append(oracle("C14:id-encoding-not-the-id", "adjustId(%#x) = bytes %s, which read back as %#x" % (n, got, int.from_bytes(bytes(int(x) for x in got.split(",")), "big"))))
+        return fs
     from yowsup.layers import YowLayerEvent
     from yowsup.layers.auth import YowAuthenticationProtocolLayer
     from yowsup.layers.network import YowNetworkLayer
@@ -134,7 +169,7 @@ def run_case(chk, stream, case):
     fails = []
     d = chk.driver
     d.ask("pk reset %d %d" % (chk.batch, chk.threshold))
-    w = World(chk)
+    w = World(chk, case.get("regid"))
     sink = io.StringIO()
     npeer = 0
     authed_now = False      # first messages can only arrive on an authenticated connection
@@ -149,19 +184,19 @@ def run_case(chk, stream, case):
         try:
             with contextlib.redirect_stdout(sink):
                 if kind == "connect":
-                    w.stack.emitEvent(YowLayerEvent(YowNetworkLayer.EVENT_STATE_CONNECTED))
                     mev = "connect"
+                    w.stack.emitEvent(YowLayerEvent(YowNetworkLayer.EVENT_STATE_CONNECTED))
                 elif kind == "authed":
                     passive = bool(w.stack.getProp(YowAuthenticationProtocolLayer.PROP_PASSIVE, False))
                     if getattr(w.control, "manager", None) is None or authed_now:
                         continue        # not connected, or already logged in on this connection
-                    w.top.broadcastEvent(YowLayerEvent(YowAuthenticationProtocolLayer.EVENT_AUTHED, passive=passive))
                     mev = "authed %d" % (1 if passive else 0)
+                    w.top.broadcastEvent(YowLayerEvent(YowAuthenticationProtocolLayer.EVENT_AUTHED, passive=passive))
                 elif kind == "serverAsksKeys":
                     if getattr(w.control, "manager", None) is None or not authed_now:
                         continue        # notifications only arrive on an authenticated connection
-                    w.near.toUpper(N("notification", {"id": "n%d" % ei, "from": "s.whatsapp.net", "type": "encrypt", "t": "1"}, [N("count", {"value": "3"})]))
                     mev = "serverAsksKeys"
+                    w.near.toUpper(N("notification", {"id": "n%d" % ei, "from": "s.whatsapp.net", "type": "encrypt", "t": "1"}, [N("count", {"value": "3"})]))
                 elif kind in ("uploadResult", "uploadError"):
                     if not w.inflight or getattr(w.control, "manager", None) is None:
                         continue
@@ -176,12 +211,12 @@ def run_case(chk, stream, case):
                     else:
                         w.near.toUpper(N("iq", {"id": up["id"], "type": "error", "from": "s.whatsapp.net"}, [N("error", {"code": "500", "text": "x"})]))
                 elif kind == "disconnected":
-                    w.stack.emitEvent(YowLayerEvent(YowNetworkLayer.EVENT_STATE_DISCONNECTED))
                     mev = "disconnected"
+                    w.stack.emitEvent(YowLayerEvent(YowNetworkLayer.EVENT_STATE_DISCONNECTED))
                 elif kind == "restart":
+                    mev = "restart"
                     w.boot()
                     nsent, nev, ncreated = 0, 0, 0
-                    mev = "restart"
                 elif kind == "consume":
                     offered = sorted(w.directory)
                     if not offered or not authed_now:
@@ -235,13 +270,20 @@ def run_case(chk, stream, case):
         mo = sorted(_norm_upload(x) for x in mouts.split(",") if x)
         diverged = sorted(outs) != mo or state != mstate
         if diverged:
-            fails.append(corr("history:" + kind, "event #%d %s of %s: impl=%s | %s   model=%s | %s" % (ei, mev, case["events"], sorted(outs), state, mo, mstate)))
+            fails.append(corr("history:" + kind, "event #%d %s of %s: impl=%s%s | %s   model=%s | %s" % (ei, mev, case["events"], sorted(outs),
+                                                              " (%s: %s)" % (type(raised).__name__, str(raised)[:60]) if raised is not None else "", state, mo, mstate)))
         # ---- oracle on the real state (also when the model and the code have just parted: this is the search for a failing input)
         what = _oracle(w, rows)
         if what:
             fails.append(oracle(what[0], "history %s: after event #%d (%s): %s" % (case["events"][:ei + 1], ei, mev, what[1])))
             break
-        if diverged:
+        if raised is not None and "raised" not in mo:
+            # the handling of this event raises where the specification of the bookkeeping (the model) completes it: with this account the
+            # keys concerned are never offered / confirmed / re-offered
+            fails.append(oracle("C14:event-raises:%s" % kind, "history %s: handling %s raises %s: %s (account with registration id %#x)"
+                                % (case["events"][:ei + 1], mev, type(raised).__name__, str(raised)[:80], getattr(getattr(w.control, "manager", None), "registration_id", 0) or 0)))
+            break
+        if diverged and not (kind == "authed" and mev.endswith("1")):
             break
         if kind == "authed" and mev.endswith("1"):
             # an authenticated passive login must offer exactly the keys whose upload was never confirmed
@@ -250,6 +292,8 @@ def run_case(chk, stream, case):
             want = sorted(i for i, s, _ in rows if not s and i not in elsewhere)
             if want and got != want:
                 fails.append(oracle("C14:unconfirmed-not-reoffered", "history %s: unconfirmed keys %s, offered at this login: %s" % (case["events"][:ei + 1], want, got)))
+                break
+            if diverged:
                 break
     # id uniqueness over the whole history
     seen = {}
@@ -359,6 +403,8 @@ def _oracle(w, rows):
 
 
 def shrink(stream, case):
+    if stream == "idenc":
+        return
     ev = case["events"]
     for i in range(1, len(ev)):
-        yield {"events": ev[:i] + ev[i + 1:]}
+        yield dict(case, events=ev[:i] + ev[i + 1:])
